@@ -147,6 +147,18 @@ def build(cfg, variant=0):
     return NonnegMean(test=test, u=u, N=N, t=num(cfg["t"]), random_order=cfg["ro"], **extra, **kw)
 
 
+def used_instance(cfg0, xs0):
+    """an instance built for cfg0 and run once on xs0 (None if the library refuses either)"""
+    try:
+        with warnings.catch_warnings():
+            warnings.simplefilter("ignore")
+            obj = build(cfg0)
+            obj.test(np.array([float(v) for v in xs0]))
+        return obj
+    except Exception:  # noqa
+        return None
+
+
 def retarget(obj, cfg):
     """Re-parametrise an existing instance in place, the way Audit.py does with `asn.test.u = u`."""
     obj.u = float(cfg["u"])
@@ -366,18 +378,15 @@ def corr_cases(rng, n, kinds=None, reuse_frac=0.15, maxlen=12):
                 cfg = dict(cfg, p=dict(cfg["p"]), defaults=["eta"], **extra)
                 cfg0["p"]["eta"] = documented_default(cfg0, "eta")
                 cfg["p"]["eta"] = documented_default(cfg, "eta")
-            try:
-                with warnings.catch_warnings():
-                    warnings.simplefilter("ignore")
-                    obj = build(cfg0)
-                    obj.test(np.array([float(v) for v in gen_xs(rng, cfg0, maxlen=maxlen)]))
-            except Exception:  # noqa
-                obj = None
+            xs0 = gen_xs(rng, cfg0, maxlen=maxlen)
+            obj = used_instance(cfg0, xs0)
             if obj is not None:
                 # parameters of cfg0 that cfg does not mention keep their old value in the instance: mirror that
                 retarget(obj, cfg)
                 tag = "reused"
         cases.append({"cfg": cfg, "xs": xs, "impl": run_impl(cfg, xs, obj, variant=rng.randint(0, 209)), "tag": tag})
+        if tag == "reused":
+            cases[-1]["earlier"] = (cfg0, xs0)      # how the instance was used before (for the targeted searches)
     return cases
 
 
